@@ -4,12 +4,12 @@ package main
 // fragmentation, short writes, stalls and cuts.
 
 import (
-	"sync"
 	"context"
 	"fmt"
 	"io"
 	"net"
 	"strings"
+	"sync"
 	"time"
 
 	lime "github.com/takenet/lime-go"
@@ -44,8 +44,8 @@ type tcpCase struct {
 	// read
 	Limit     int      `json:"limit,omitempty"`
 	Sizes     []int    `json:"sizes,omitempty"`
-	ReadPlan  []string `json:"read_plan,omitempty"`  // scripted: chunk:<n> stall cut
-	Logged    []string `json:"logged,omitempty"`     // what the Read calls returned
+	ReadPlan  []string `json:"read_plan,omitempty"` // scripted: chunk:<n> stall cut
+	Logged    []string `json:"logged,omitempty"`    // what the Read calls returned
 	N         int      `json:"n,omitempty"`
 	Results   []string `json:"results,omitempty"` // got:<i> err corrupt
 	Taken     []int    `json:"taken,omitempty"`
